@@ -146,6 +146,7 @@ def run(ctx):
                     fresh = driver.make_mineral(I, m.attrs["phase"].name, fab[m.attrs["phase"].name], "matrix_dislocation", N0,
                                                 label="h" + m.attrs["phase"].name[:2], nsnap=nsteps, symbolic_n=False)
                     m.attrs["orientations"], m.attrs["fractions"] = fresh.attrs["orientations"], fresh.attrs["fractions"]
+                    I.facts_nonzero.extend(lift(x) for fsnap in m.attrs["fractions"] for x in fsnap)
             try:
                 out = I.call(f, (ms, list(phs), [p, q], st_k))
                 ident_arr(ctx, "C10.history", label, out, ref_average(ms, ("olivine", "enstatite"), (p, q), C_k, nsteps, N0), loc, what="averaged stiffness")
@@ -172,6 +173,7 @@ def run(ctx):
             aligned = {"all aligned": (0, 1, 2), "first aligned": (0,), "last aligned": (2,)}[variant]
             for g in aligned:
                 m.attrs["orientations"][0][g] = I.np.np_eye(3)
+            I.facts_nonzero.extend(lift(x) for fsnap in m.attrs["fractions"] for x in fsnap)      # volumes are strictly positive here
             try:
                 out = I.call(f, ([m], [enum(I, "pydrex.core.MineralPhase", ph)], [p], st))
                 ident_arr(ctx, "C10.aligned", f"{ph}:{variant}, general volumes", out, ref_average([m], (ph,), (p,), C, 1, 3), loc, what="averaged stiffness")
